@@ -33,7 +33,7 @@ type propSpec struct {
 }
 
 var props = map[string]propSpec{
-	"C01": {"C01", []string{"genmap"}, "", nil},
+	"C01": {"C01", []string{"genmap", "genselect"}, "", nil},
 	"C02": {"C02", []string{"genmap"}, "", nil},
 	"C03": {"C03", []string{"empty"}, "", nil},
 	"C04": {"C04", []string{"empty"}, "", nil},
@@ -140,7 +140,11 @@ func newEnv() (*pipeline.Env, func()) {
 		os.RemoveAll(w)
 		fail2("%v", err)
 	}
-	return env, func() { os.RemoveAll(w) }
+	return env, func() {
+		if os.Getenv("VERIF_KEEP") == "" {
+			os.RemoveAll(w)
+		}
+	}
 }
 
 func checkProperty(p propSpec, tier string, seed int64, replay string) int {
